@@ -8,7 +8,7 @@ pub enum DecodeError {
     UnexpectedEnd { additional: usize },
     UnexpectedVariant { type_name: &'static str, allowed: &'static AllowedEnumVariants, found: u32 },
     ArrayLengthMismatch { required: usize, found: usize },
-    Other,
+    Other(&'static str),
 }
 #[verifier::external_body]
 pub struct EncodeError { _p: core::marker::PhantomData<()> }
